@@ -180,6 +180,15 @@ def deref_expr(prog, fn, expr):
     """canonical text of ``expr`` with local names replaced by their unique defining expression."""
     import copy
 
+    # locals that are stored into in place are not equal to their defining expression any more
+    mutated = set()
+    for t_, v_, s_, k_ in iter_stores(fn.node):
+        b_ = t_
+        while isinstance(b_, ast.Subscript):
+            b_ = b_.value
+        if isinstance(b_, ast.Name) and (b_ is not t_ or k_ == "aug"):
+            mutated.add(b_.id)
+
     class D(ast.NodeTransformer):
         def __init__(self):
             self.depth = 0
@@ -207,7 +216,7 @@ def deref_expr(prog, fn, expr):
             return node
 
         def visit_Name(self, node):
-            if isinstance(node.ctx, ast.Load) and self.depth < 4:
+            if isinstance(node.ctx, ast.Load) and self.depth < 4 and node.id not in mutated:
                 defs = reaching_assignments(prog, fn, node.id, expr)
                 if len(defs) == 1 and defs[0] is not None and not isinstance(defs[0], ast.Name):
                     self.depth += 1
